@@ -147,6 +147,13 @@ package avltree
 //@   ensures [C08] n == nil ==> result == nil
 //@   ensures [C08] n != nil ==> (n.pos == 0 ==> result == nil) && (n.pos > 0 ==> result == n.tr.nodes[n.pos - 1])
 
+//@ -- Node.Size: number of nodes of the subtree = length of its position interval (recursive count); reads only
+//@ func Node.Size
+//@   requires n != nil ==> n.tr != nil && ShapeInv(n.tr)
+//@   decreases ite(n != nil, n.hi - n.lo + 1, 0)
+//@   modifies nothing
+//@   ensures [C15 C17 C18] (n == nil ==> result == 0) && (n != nil ==> result == n.hi - n.lo + 1)
+
 //@ func Tree.Keys
 //@   requires ShapeInv(tree)
 //@   modifies nothing
